@@ -102,6 +102,7 @@ UNIT_DRIVERS = {
     "table_meta": ["sstable::table::roundtrip_enum_quick"],
     "recovery_flush": ["wal::crash_enum_quick"],
     "scan_filter_back": ["transaction::cursor_enum_quick"],
+    "bptree_node": ["bptree_enum_quick"],
     "lock_order": ["transaction::cursor_enum_quick"],
 }
 
